@@ -38,11 +38,11 @@ func init() {
 }
 
 type c19env struct {
-	t     *dyn.TypeOps
-	ch    int
-	pair  *dyn.PairOps
-	conv  *dyn.ConvOp
-	convD *dyn.TypeOps
+	t      *dyn.TypeOps
+	ch     int
+	pair   *dyn.PairOps
+	convsS []*dyn.ConvOp // every conversion instantiation with this element type as source
+	convsD []*dyn.ConvOp // ... as destination
 }
 
 // readerWork runs nOps read-only operations on frames [0,limit) of b and
@@ -106,8 +106,9 @@ func (e *c19env) readerWork(b dyn.Buf, limit int, r *core.Rand, nOps int, yield 
 			}
 		default:
 			// conversion source into a private destination of `limit` frames
-			dst := e.convD.Alloc(signal.Allocator{Channels: ch, Length: limit, Capacity: limit})
-			h.Int(e.conv.Call(b, dst))
+			cv := e.convsS[r.Intn(len(e.convsS))]
+			dst := cv.D.Alloc(signal.Allocator{Channels: ch, Length: limit, Capacity: limit})
+			h.Int(cv.Call(b, dst))
 			for i := 0; i < dst.Len(); i += 1 + dst.Len()/9 {
 				h.U64(dst.Sample(i).Bits())
 			}
@@ -120,7 +121,7 @@ func (e *c19env) readerWork(b dyn.Buf, limit int, r *core.Rand, nOps int, yield 
 }
 
 // writerWork obtains shared.Slice(lo,hi) itself and writes only inside it.
-func (e *c19env) writerWork(shared dyn.Buf, lo, hi int, r *core.Rand, nOps int, tag int64, yield func(), wconv *dyn.ConvOp) {
+func (e *c19env) writerWork(shared dyn.Buf, lo, hi int, r *core.Rand, nOps int, tag int64, yield func()) {
 	ch := e.ch
 	v := shared.Slice(lo, hi)
 	n := int64(0)
@@ -159,9 +160,14 @@ func (e *c19env) writerWork(shared dyn.Buf, lo, hi int, r *core.Rand, nOps int, 
 			}
 			e.pair.WriteStriped(ss, v)
 		case 3:
+			wconv := e.convsD[r.Intn(len(e.convsD))]
 			src := wconv.S.Alloc(signal.Allocator{Channels: ch, Length: r.Range(0, frames+2), Capacity: frames + 2})
 			for i := 0; i < src.Len(); i++ {
-				src.SetSample(i, wconv.S.FromInt(int64(1+(int(tag)+i)%100)))
+				x := wconv.S.FromInt(int64(1 + (int(tag)+i)%100))
+				if wconv.S.Kind == dyn.KFloat && i%2 == 0 {
+					x = dyn.FloatVal(float64((int(tag)+i)%9-4) / 4) // in and beyond [-1,1]
+				}
+				src.SetSample(i, x)
 			}
 			wconv.Call(src, v)
 		case 4:
@@ -193,7 +199,11 @@ func c19Fill(b dyn.Buf, t *dyn.TypeOps) {
 		if t.Kind != dyn.KUint && i%3 == 0 {
 			x = -x
 		}
-		all.Set(i, t.FromInt(x))
+		v := t.FromInt(x)
+		if t.Kind == dyn.KFloat && i%2 == 1 {
+			v = dyn.FloatVal(float64(x%9) / 4) // samples inside, at and beyond full scale
+		}
+		all.Set(i, v)
 	}
 }
 
@@ -221,14 +231,13 @@ func runC19(c *core.Ctx) {
 			continue
 		}
 		e := &c19env{t: t, ch: ch, pair: dyn.Pairs[t.ID][t.ID]}
-		// conversion with this type as source (readers) / destination (writers)
-		var wconv *dyn.ConvOp
+		// conversions with this type as source (readers) / destination (writers)
 		for _, cv := range dyn.Convs {
-			if cv.S == t && e.conv == nil && cv.D != t {
-				e.conv, e.convD = cv, cv.D
+			if cv.S == t {
+				e.convsS = append(e.convsS, cv)
 			}
-			if cv.D == t && wconv == nil && cv.S.Kind != dyn.KFloat {
-				wconv = cv
+			if cv.D == t {
+				e.convsD = append(e.convsD, cv)
 			}
 		}
 		cfgD := map[string]any{"type": t.Name, "channels": ch, "frames": frames, "GOMAXPROCS": procs, "readers": R, "writers": W, "build": c.Mode}
@@ -300,7 +309,7 @@ func runC19(c *core.Ctx) {
 			seqPanic := false
 			for wI := 0; wI < W; wI++ {
 				if p, msg := core.Guard(func() {
-					e.writerWork(seq, bounds[wI], bounds[wI+1], core.NewRand(c.Seed, core.HashStr(caseID), 200+uint64(wI)), nOps, int64(wI+1), nil, wconv)
+					e.writerWork(seq, bounds[wI], bounds[wI+1], core.NewRand(c.Seed, core.HashStr(caseID), 200+uint64(wI)), nOps, int64(wI+1), nil)
 				}); p {
 					c.Violate("writers["+t.Name+"]|panic", caseID, fmt.Sprintf("a writer confined to its own Slice(%d,%d) panicked in the sequential reference run: %s", bounds[wI], bounds[wI+1], msg), cfgD)
 					seqPanic = true
@@ -325,7 +334,7 @@ func runC19(c *core.Ctx) {
 				go func(wI int) {
 					defer wg.Done()
 					<-start
-					e.writerWork(shared, bounds[wI], bounds[wI+1], core.NewRand(c.Seed, core.HashStr(caseID), 200+uint64(wI)), nOps, int64(wI+1), yield(core.NewRand(c.Seed, 79, uint64(wI))), wconv)
+					e.writerWork(shared, bounds[wI], bounds[wI+1], core.NewRand(c.Seed, core.HashStr(caseID), 200+uint64(wI)), nOps, int64(wI+1), yield(core.NewRand(c.Seed, 79, uint64(wI))))
 				}(wI)
 			}
 			close(start)
